@@ -101,7 +101,7 @@ def stepLine (st : St) (line : String) : St × String :=
       (.sop st p [(0, n, st)], s!"{st} {p.sop.avail}")
     | _, _, _ => bad
   | ["reset", "poolx", e, size] =>
-    -- pool_engage's asserts: `elemsz >= sizeof(struct slist_head)` and `size % elemsz == 0`
+    -- igris::pool(zone, size, elsize): asserts `elsize >= sizeof(struct slist_head)` (init) and `size % elemsz == 0` (pool_engage)
     match e.toNat?, size.toNat? with
     | some e, some size =>
       (.idle, if engageRefused size e then "assert" else s!"engaged {(Pool.init.engage size e).avail}")
